@@ -21,6 +21,7 @@ shim_timer_register(int (*f)(void *), void * c, long sec, long usec)
 	tv.tv_usec = usec;
 	return (events_timer_register(f, c, &tv));
 }
+void * shim_timer_register_double(int (*f)(void *), void * c, double t) { return (events_timer_register_double(f, c, t)); }
 void shim_timer_cancel(void * c) { events_timer_cancel(c); }
 int shim_timer_reset(void * c) { return (events_timer_reset(c)); }
 int shim_events_run(void) { return (events_run()); }
